@@ -35,8 +35,8 @@ pub fn wrap_is_spec(KL: usize, PL: usize, it: u32, default_params: bool) {
     let kb: [u8; KX] = kani::any();
     let ptk = &kb[..KL];
     vmodel_core::rng_may_fail(false);
-    let d0 = vmodel_core::rng_preview(0);
-    let d1 = vmodel_core::rng_preview(1);
+    let d0 = vmodel_core::rng_preview_len(32);
+    let d1 = vmodel_core::rng_preview_len(16);
     let mut salt = [0u8; 32];
     salt.copy_from_slice(&d0[..32]);
     let mut n = [0u8; 16];
@@ -52,7 +52,7 @@ pub fn wrap_is_spec(KL: usize, PL: usize, it: u32, default_params: bool) {
     vcheck_all!(
         (ok, "[C05] password wrapping with valid parameters always succeeds"),
         (!ok || out.len() == FIX + KL, "[C05] PBKW blob has the fixed length 32+4+16+|key|+48"),
-        (vmodel_core::rng_draws() == 2 && vmodel_core::rng_draw(0).len == 32 && vmodel_core::rng_draw(1).len == 16, "[C16] PBKW draws a fresh 32-byte salt and a fresh 16-byte nonce"),
+        (vmodel_core::rng_draws() == 2 && vmodel_core::rng_has_len(32) && vmodel_core::rng_has_len(16), "[C16] PBKW draws a fresh 32-byte salt and a fresh 16-byte nonce"),
         (!ok || out[..] == spec[..], "[C07] PBKW output equals the PASERK specification's blob for the salt, nonce and iteration count it embeds (incl. the full-width CTR counter)"),
     );
 }
